@@ -99,7 +99,8 @@ async def run_one(flavor, c, cnt, v):
                 return Resp(200, b"Connection established", [], b"", framing="none")
             if 200 <= status < 300:
                 return Resp(status, b"Tunnel", [(b"X-Px", b"1")], b"", framing="none")
-            return Resp(status, b"Nope", [(b"X-Px", b"1")], b"refused-by-proxy", conn_close=r.random() < 0.5)
+            reason = r.choice([b"Nope", b"Nope", b"", b"Acc\xe8s refus\xe9", b"\xe2\x9b\x94 denied", b"Bad Gatewa\xf9", b"Proxy  Says   No"])
+            return Resp(status, reason, [(b"X-Px", b"1")], b"refused-by-proxy", conn_close=r.random() < 0.5)
         px = endpoints.HTTPProxy(net, "proxy.test", 3128, tls=kind == "https", origins=[origin], connect_reply=connect_reply)
         pcfg = {"url": f"{kind}://proxy.test:3128", "auth": auth, "headers": proxy_headers}
     else:
